@@ -42,6 +42,10 @@ bool Parser::parseTypeName(TypeNameSyntax*& typeName)
 {
     DBG_THIS_RULE();
 
+    DepthControl _(DEPTH_OF_DECLS_,
+                   MAX_DEPTH_OF_DECLS,
+                   "maximum depth of declarations reached");
+
     DeclarationSyntax* decl = nullptr;
     SpecifierListSyntax* specList = nullptr;
     if (!parseSpecifierQualifierList(decl, specList))
